@@ -124,10 +124,12 @@ EMITTED = {"out1_", "v_", "it_", "oivld", "sub_while", "run_for_o", "run_while",
            "RFuel", "RSkip", "res", "zmem", "oZ_eqb", "nonempty", "py_index", "zrange", "bisect_right",
            "Plain", "NEG_INF", "POS_INF", "ValueError", "TypeError", "KeyError", "IndexError", "freq_eqb",
            "Daily", "Weekly", "Monthly", "Yearly", "sl_add", "sl_remove", "fetch_static", "cov_add", "cov_remove",
-           "heap_push", "ivl", "ctl", "step", "exn"}
+           "heap_push", "ivl", "ctl", "step", "exn",
+           "res_bind", "sub_for", "py_set_index", "list_set_nat", "any_mut", "any_mut_at", "py_max", "py_min",
+           "py_enumerate", "fs_of_list", "fs_insert", "forallb", "existsb", "combine", "r_", "m_", "b_"}
 
 COQ_TYPE = {"Z": "Z", "OZ": "option Z", "B": "bool", "IVL": "ivl", "OIVL": "option ivl",
-            "LIST": "list ivl", "U": "unit"}
+            "LIST": "list ivl", "U": "unit", "FS": "list Z"}
 
 GLOBAL_CONSTS = {"NEG_INF": ("NEG_INF", "Z"), "POS_INF": ("POS_INF", "Z"),
                  "DAY": ("86400", "Z"), "WEEK": ("604800", "Z"), "HOUR": ("3600", "Z"), "MINUTE": ("60", "Z")}
@@ -151,7 +153,8 @@ def ann_type(node):
              "Interval": "IVL", "Ivl": "IVL", "IvlOut": "IVL",
              "Interval|None": "OIVL", "Ivl|None": "OIVL", "IvlOut|None": "OIVL",
              "Iterable[Interval]": "LIST", "Iterable[Ivl]": "LIST", "Iterable[IvlOut]": "LIST",
-             "list[Interval]": "LIST", "list[Ivl]": "LIST", "list[IvlOut]": "LIST", "list[int]": "L:Z"}
+             "list[Interval]": "LIST", "list[Ivl]": "LIST", "list[IvlOut]": "LIST", "list[int]": "L:Z",
+             "Iterator[Interval]": "LIST", "frozenset[int]": "FS"}
     if s in table:
         return table[s]
     raise Unsupported(f"annotation {s}")
@@ -200,6 +203,24 @@ class Tr:
         self.kind = spec["kind"]
         self.loop_depth = 0
         self.plain = 0                                   # > 0: inside text that must not produce res values
+        # records: type -> dict(coq, mk, cls, fields=[(python attribute, coq projection, type)], default)
+        self.records = spec.get("records", {})
+        for rt, rd in self.records.items():
+            self.types[rt] = rd["coq"]
+            self.defaults[rt] = rd["default"]
+        # methods of record classes translated earlier: (record type, python name) ->
+        #   dict(coq, args, ret, mutates)
+        self.rec_methods = {k: v for k, v in known_funcs.items() if isinstance(k, tuple)}
+        self.mut_names = {k[1] for k, v in self.rec_methods.items() if v["mutates"]}
+        self.hoist = None                                # list of pending prefixes while a statement's
+        self.cond_depth = 0                              #   expression is translated (see hoisted())
+        self.fresh = 0
+        self.uses_fuel = False
+        # sum types: type -> dict(coq, ctors=[(constructor, [(field, type)])],
+        #                         exprs={constructor: {source text with {x}: (coq text with field names, type)}})
+        self.sums = spec.get("sums", {})
+        for stn, sd in self.sums.items():
+            self.types[stn] = sd["coq"]
 
     # ---------------------------------------------------------------- types
     def is_type(self, t):
@@ -216,13 +237,15 @@ class Tr:
     def item_of(self, t):
         if t == "LIST":
             return "IVL"
+        if t == "FS":
+            return "Z"
         if t.startswith("L:"):
             return t[2:]
         raise Unsupported(f"{t} is not a list type")
 
     @staticmethod
     def is_list(t):
-        return t == "LIST" or t.startswith("L:")
+        return t in ("LIST", "FS") or t.startswith("L:")
 
     def same(self, a, b):
         norm = lambda t: "L:IVL" if t == "LIST" else t
@@ -264,8 +287,46 @@ class Tr:
                     (name in RESERVED.values()) or name.startswith("g_"):
                 raise Unsupported(f"local name {name} would capture a name of the generated text")
         env = self.kill(env, name)
+        env = self.drop_aliases(env, name)
         env[name] = ty
+        if ty in self.sums:
+            self.sum_names.add(name)
+            if name in env.get("$ctor", {}):
+                env = dict(env)
+                env["$ctor"] = {k: v for k, v in env["$ctor"].items() if k != name}
         return env
+
+    # aliases: env["$alias"][v] = (L, index text, names in the index) after `v = L[i]` where L is a local
+    # list of records: v is the SAME object as L[i], so every update of v is written back into L at once
+    # (py_set_index); when L or the index is re-assigned, v goes out of scope (its copy could be stale).
+    def drop_aliases(self, env, name):
+        al = env.get("$alias")
+        if not al:
+            return env
+        keep, stale = {}, []
+        for a, (lst, idx, names) in al.items():
+            if a == name:
+                continue
+            if lst == name or name in names:
+                stale.append(a)
+            else:
+                keep[a] = (lst, idx, names)
+        env = dict(env)
+        env["$alias"] = keep
+        for a in stale:
+            env.pop(a, None)
+        return env
+
+    def write_back(self, env, v, pad):
+        al = env.get("$alias", {}).get(v)
+        if al is None:
+            return ""
+        lst, idx, _ = al
+        return f"{pad}let {cname(lst)} := (py_set_index {cname(lst)} {idx} {cname(v)}) in\n"
+
+    def new_var(self, stem):
+        self.fresh += 1
+        return f"{stem}{self.fresh}_"
 
     # ---------------------------------------------------------------- expressions
     def coerce(self, text, ty, want, what="", e=None, env=None):
@@ -279,6 +340,10 @@ class Tr:
             if e is not None and env is not None and is_path(e) and self.known_some(e, env):
                 return f"(ozd {text})"
             raise Unsupported(f"Optional {what} used as an int without a None test")
+        if ty == "OIVL" and want == "IVL":
+            if e is not None and env is not None and is_path(e) and self.known_some(e, env):
+                return f"(oivld {text})"
+            raise Unsupported(f"Optional {what} used as an Interval without a None test")
         if self.is_list(ty) and want == "B":
             return f"(nonempty {text})"
         if ty == "OIVL" and want == "B":
@@ -302,6 +367,10 @@ class Tr:
     def expr0(self, e, env, want=None):
         if self.text_exprs and ast.unparse(e) in self.text_exprs:
             return self.text_exprs[ast.unparse(e)]
+        if self.sums:
+            r = self.sum_expr(e, env)
+            if r is not None:
+                return r
         if isinstance(e, ast.Constant):
             if e.value is None:
                 return "None", "NONE"
@@ -335,13 +404,33 @@ class Tr:
                      "finite_start": (f"(fstart {vt})", "Z"), "finite_end": (f"(fend {vt})", "Z")}
                 if e.attr in m:
                     return m[e.attr]
+            if vty in self.records:
+                for py, proj, ty in self.records[vty]["fields"]:
+                    if py == e.attr:
+                        return f"({proj} {vt})", ty
+                raise Unsupported(f"attribute .{e.attr} of the record {vty}")
             if (vty, e.attr) in self.attrs:
                 fn, ty = self.attrs[(vty, e.attr)]
                 return f"({fn} {vt})", ty
             raise Unsupported(f"attribute .{e.attr} of {vty}")
+        if isinstance(e, (ast.IfExp, ast.BoolOp, ast.GeneratorExp, ast.ListComp, ast.Lambda)):
+            self.cond_depth += 1
+            try:
+                return self.expr0_cond(e, env, want)
+            finally:
+                self.cond_depth -= 1
+        return self.expr0_rest(e, env, want)
+
+    def expr0_cond(self, e, env, want):
+        if isinstance(e, ast.Lambda):
+            raise Unsupported("lambda")
         if isinstance(e, ast.IfExp):
             c, _ = self.expr(e.test, env, "B")
             ref = self.refine_name(e.test)
+            if c in ("true", "false") and not (ref is not None and env.get(ref[0]) in OPT):
+                # a test decided by a known constructor: only the branch that runs is translated
+                live = e.body if c == "true" else e.orelse
+                return self.expr0(live, self.refine(e.test, env, c == "true"), want)
             if ref is not None and env.get(ref[0]) in OPT:
                 # `x if x is not None else d`: the name is rebound at the underlying type
                 n, some_in_body = ref
@@ -363,9 +452,7 @@ class Tr:
                 if some_in_body:
                     return f"(match {x} with Some {x} => {a} | None => {b} end)", ty
                 return f"(match {x} with None => {a} | Some {x} => {b} end)", ty
-            return f"(if {c} then {a} else {b})", ty
-        if isinstance(e, ast.Compare):
-            return self.compare(e, env)
+            return self.simp_if(c, a, b), ty
         if isinstance(e, ast.BoolOp):
             # `x is not None and f(x)`: the operands to the right see the flow fact
             parts = []
@@ -373,11 +460,45 @@ class Tr:
             for v in e.values:
                 parts.append(self.expr(v, cur, "B")[0])
                 cur = self.refine(v, cur, isinstance(e.op, ast.And))
-            sym = " && " if isinstance(e.op, ast.And) else " || "
-            return "(" + sym.join(parts) + ")", "B"
+            return self.simp_bool(parts, isinstance(e.op, ast.And)), "B"
+        return self.comprehension(e, env, want)
+
+    @staticmethod
+    def simp_if(c, a, b):
+        if c == "true":
+            return a
+        if c == "false":
+            return b
+        return f"(if {c} then {a} else {b})"
+
+    @staticmethod
+    def simp_bool(parts, is_and):
+        """&& / || with the constants true / false folded away (they arise from tests on a value whose
+        constructor is known)"""
+        unit, zero = ("true", "false") if is_and else ("false", "true")
+        out = []
+        for t in parts:
+            if t == unit:
+                continue
+            out.append(t)
+            if t == zero:
+                break
+        if out and out[-1] == zero:
+            # everything before a constant `zero` is still evaluated by Python, but it is pure: the value is `zero`
+            return zero
+        if not out:
+            return unit
+        if len(out) == 1:
+            return out[0]
+        return "(" + (" && " if is_and else " || ").join(out) + ")"
+
+    def expr0_rest(self, e, env, want):
+        if isinstance(e, ast.Compare):
+            return self.compare(e, env)
         if isinstance(e, ast.UnaryOp):
             if isinstance(e.op, ast.Not):
-                return f"(negb {self.expr(e.operand, env, 'B')[0]})", "B"
+                t = self.expr(e.operand, env, 'B')[0]
+                return {"true": "false", "false": "true"}.get(t, f"(negb {t})"), "B"
             if isinstance(e.op, ast.USub):
                 return f"(- {self.expr(e.operand, env, 'Z')[0]})", "Z"
             raise Unsupported("unary operator")
@@ -396,28 +517,11 @@ class Tr:
             return f"({a} {sym[type(e.op)]} {b})", "Z"
         if isinstance(e, ast.Call):
             return self.call(e, env)
-        if isinstance(e, (ast.GeneratorExp, ast.ListComp)):
-            # (elt for x in stream if cond)  ->  map (fun x => elt) (filter (fun x => cond) stream)
-            if len(e.generators) != 1:
-                raise Unsupported("nested comprehension")
-            g = e.generators[0]
-            if g.is_async or not isinstance(g.target, ast.Name):
-                raise Unsupported("comprehension target")
-            src, sty = self.expr0(g.iter, env)
-            if not self.is_list(sty):
-                raise Unsupported(f"comprehension over {sty}")
-            ity = self.item_of(sty)
-            inner = self.bind(env, g.target.id, ity)
-            x = cname(g.target.id)
-            for cond in g.ifs:
-                c, _ = self.expr(cond, inner, "B")
-                src = f"(filter (fun {x} => {c}) {src})"
-            if isinstance(e.elt, ast.Name) and e.elt.id == g.target.id:
-                return src, sty
-            elt, ety = self.expr0(e.elt, inner)
-            if ety in ("NONE",):
-                raise Unsupported("comprehension element type")
-            return f"(map (fun {x} => {elt}) {src})", ("LIST" if ety == "IVL" else "L:" + ety)
+        if isinstance(e, ast.List) and e.elts:
+            ts = [self.expr(x, env, "Z")[0] for x in e.elts]
+            return "[" + "; ".join(ts) + "]", "L:Z"
+        if isinstance(e, ast.Tuple) and not e.elts and want is not None and self.is_list(want):
+            return f"(@nil {self.coq_type(self.item_of(want))})", want      # `return ()`: an empty iterable
         if isinstance(e, ast.List) and not e.elts:
             if want is not None and self.is_list(want):
                 return f"(@nil {self.coq_type(self.item_of(want))})", want
@@ -438,6 +542,78 @@ class Tr:
             i, _ = self.expr(e.slice, env, "Z")
             return f"(py_index {self.defaults[ity]} {xs} {i})", ity
         raise Unsupported(f"expression {type(e).__name__}: {ast.unparse(e)}")
+
+    def comp_parts(self, e, env):
+        """(elt for x in stream if cond ...) -> (text of the filtered stream, its type, binder, inner env)"""
+        if len(e.generators) != 1:
+            raise Unsupported("nested comprehension")
+        g = e.generators[0]
+        if g.is_async:
+            raise Unsupported("comprehension target")
+        if isinstance(g.target, ast.Tuple):
+            # for i, x in enumerate(xs)
+            it = g.iter
+            if not (len(g.target.elts) == 2 and all(isinstance(t, ast.Name) for t in g.target.elts)
+                    and isinstance(it, ast.Call) and isinstance(it.func, ast.Name) and it.func.id == "enumerate"
+                    and "enumerate" not in env and len(it.args) == 1 and not it.keywords):
+                raise Unsupported("comprehension target")
+            xs, xty = self.expr0(it.args[0], env)
+            if not self.is_list(xty):
+                raise Unsupported(f"enumerate of {xty}")
+            n1, n2 = g.target.elts[0].id, g.target.elts[1].id
+            if n1 == n2:
+                raise Unsupported("repeated name in a tuple target")
+            inner = self.bind(self.bind(env, n1, "Z"), n2, self.item_of(xty))
+            src, sty, x = f"(py_enumerate {xs})", None, f"'({cname(n1)}, {cname(n2)})"
+        elif isinstance(g.target, ast.Name):
+            src, sty = self.expr0(g.iter, env)
+            if not self.is_list(sty):
+                raise Unsupported(f"comprehension over {sty}")
+            inner = self.bind(env, g.target.id, self.item_of(sty))
+            x = cname(g.target.id)
+        else:
+            raise Unsupported("comprehension target")
+        for cond in g.ifs:
+            c, _ = self.expr(cond, inner, "B")
+            src = f"(filter (fun {x} => {c}) {src})"
+            inner = self.refine(cond, inner, True)          # the element is evaluated only where cond held
+        return src, sty, x, inner
+
+    def comprehension(self, e, env, want):
+        # (elt for x in stream if cond)  ->  map (fun x => elt) (filter (fun x => cond) stream)
+        g = e.generators[0]
+        src, sty, x, inner = self.comp_parts(e, env)
+        if sty is not None and isinstance(e.elt, ast.Name) and isinstance(g.target, ast.Name) \
+                and e.elt.id == g.target.id:
+            return src, sty
+        elt, ety = self.expr0(e.elt, inner)
+        if ety in OPT and is_path(e.elt) and self.known_some(e.elt, inner):
+            # an Optional the comprehension's own `if` tested against None
+            elt, ety = self.coerce(elt, ety, OPT[ety], ast.unparse(e.elt), e.elt, inner), OPT[ety]
+        if ety in ("NONE",):
+            raise Unsupported("comprehension element type")
+        return f"(map (fun {x} => {elt}) {src})", ("LIST" if ety == "IVL" else "L:" + ety)
+
+    def sum_expr(self, e, env):
+        """an expression about a variable of a sum type whose constructor is known here: the text the
+        spec gives for this constructor"""
+        ctors = env.get("$ctor")
+        if not ctors:
+            return None
+        text = ast.unparse(e)
+        for name, ctor in ctors.items():
+            if name not in text:
+                continue
+            sd = self.sums[env[name]]
+            for pat, val in sd["exprs"].get(ctor, {}).items():
+                if ast.unparse(ast.parse(pat.format(x=name), mode="eval").body) == text:
+                    if val is None:
+                        raise Unsupported(f"`{text}` is not defined when {name} is a {ctor}")
+                    t, ty = val
+                    fields = dict(sd["ctors"])[ctor]
+                    return t.format(**{f: f"{cname(name)}_{f}" for f, _ in fields}), ty
+            # any other use of the variable under a known constructor is not translated
+        return None
 
     @staticmethod
     def tuple_item(x, n, i):
@@ -577,6 +753,39 @@ class Tr:
             a = self.expr(kw["start"], env, "OZ")[0] if "start" in kw else f"(st {x})"
             b = self.expr(kw["end"], env, "OZ")[0] if "end" in kw else f"(en {x})"
             return f"(set_span {x} {a} {b})", "IVL"
+        if fn in ("all", "any") and len(e.args) == 1 and not e.keywords:
+            comb = "forallb" if fn == "all" else "existsb"
+            a = e.args[0]
+            if isinstance(a, (ast.GeneratorExp, ast.ListComp)):
+                if self.mut_call_in(a.elt):
+                    raise Unsupported(f"{fn}(..) over calls that update their receiver: only as `x = {fn}(..)`")
+                self.cond_depth += 1
+                try:
+                    src, _, x, inner = self.comp_parts(a, env)
+                    elt, _ = self.expr(a.elt, inner, "B")
+                finally:
+                    self.cond_depth -= 1
+                return f"({comb} (fun {x} => {elt}) {src})", "B"
+            t, ty = self.expr0(a, env)
+            if self.same(ty, "L:B"):
+                return f"({comb} (fun b_ => b_) {t})", "B"
+            raise Unsupported(f"{fn} of {ty}")
+        if fn in ("max", "min") and len(e.args) == 1 and not e.keywords and \
+                isinstance(e.args[0], (ast.GeneratorExp, ast.ListComp)):
+            t, ty = self.expr0(e.args[0], env)
+            if not self.same(ty, "L:Z"):
+                raise Unsupported(f"{fn} over {ty}")
+            return f"(py_{fn} {t})", "Z"
+        if fn == "frozenset" and len(e.args) == 1 and not e.keywords:
+            t, ty = self.expr0(e.args[0], env)
+            if not self.same(ty, "L:Z"):
+                raise Unsupported(f"frozenset of {ty}")
+            return f"(fs_of_list {t})", "FS"
+        if isinstance(e.func, ast.Attribute) and fn not in self.calls and \
+                any(k[1] == e.func.attr for k in self.rec_methods):
+            r = self.record_method_call(e, env)
+            if r is not None:
+                return r
         if fn == "iter" and len(e.args) == 1 and not e.keywords:
             # an iterator over a stream = the list of the items not yet consumed (see `next` in try_stmt)
             x, ty = self.expr0(e.args[0], env)
@@ -620,6 +829,8 @@ class Tr:
                 if not self.in_try:
                     raise Unsupported(f"{fn} may raise: only as `try: return {fn}(..) except ..`")
                 self.last_raises = cs
+            if isinstance(cs, dict) and cs.get("res"):
+                return self.res_call(cs, fn, e, env)
             return self.apply_spec(cs, fn, e.args, e.keywords, env)
         if isinstance(e.func, ast.Attribute) and self.methods:
             recv, rty = self.expr0(e.func.value, env)
@@ -637,6 +848,85 @@ class Tr:
             ts = [self.expr(a, env, t)[0] for a, t in zip(e.args, argtys)]
             return "(" + " ".join([cn] + ts) + ")", ret
         raise Unsupported(f"call of {fn}")
+
+    # ---- calls that cannot stay inside the expression: they are bound in front of the statement
+    def mut_call_in(self, node):
+        """does the expression contain a call of a method that updates its receiver?"""
+        return any(isinstance(x, ast.Call) and isinstance(x.func, ast.Attribute) and x.func.attr in self.mut_names
+                   for x in ast.walk(node))
+
+    def can_hoist(self, what):
+        if self.hoist is None or self.cond_depth:
+            raise Unsupported(f"{what}: only as a statement, or unconditionally in the right-hand side of an "
+                              f"assignment / a return")
+
+    def record_method_call(self, e, env):
+        """v.m(args) for a method m of a record class (translated earlier)"""
+        recv = e.func.value
+        if isinstance(recv, ast.Name) and recv.id == "self" and "self" not in env:
+            return None
+        vt, vty = self.expr0(recv, env)
+        md = self.rec_methods.get((vty, e.func.attr))
+        if md is None:
+            return None
+        if e.keywords or len(e.args) != len(md["args"]):
+            raise Unsupported(f"call shape of {ast.unparse(e.func)}")
+        ts = [self.expr(a, env, t)[0] for a, t in zip(e.args, md["args"])]
+        text = "(" + " ".join([md["coq"], vt] + ts) + ")"
+        if not md["mutates"]:
+            return text, md["ret"]
+        # the method returns (updated record, result): bound in front of the statement
+        if not isinstance(recv, ast.Name):
+            raise Unsupported(f"{ast.unparse(e.func)} updates its receiver, which is not a plain name")
+        self.can_hoist(ast.unparse(e.func))
+        v = recv.id
+        lst = env.get("$alias", {}).get(v, (None,))[0]
+        others = sum(1 for x in ast.walk(self.stmt_expr) if isinstance(x, ast.Name) and x.id in (v, lst)) - \
+            sum(1 for x in ast.walk(e) if isinstance(x, ast.Name) and x.id in (v, lst))
+        if others or sum(1 for x in ast.walk(e) if isinstance(x, ast.Name) and x.id == v) != 1:
+            raise Unsupported(f"{v} is updated by {ast.unparse(e.func)} and used elsewhere in the same statement")
+        var = self.new_var("m")
+        self.hoist.append(dict(kind="mut", recv=v, text=text, var=var))
+        return var, md["ret"]
+
+    def res_call(self, cs, fn, e, env):
+        """a call of a generated function whose result is a res: `res_bind (f ..) (fun r => ..)` in front of
+        the statement"""
+        self.can_hoist(fn)
+        if not self.res or self.plain:
+            raise Unsupported(f"{fn} returns a res: only in a function with a res result, outside loops")
+        cs2 = dict(cs)
+        if cs.get("fuel"):
+            self.uses_fuel = True
+            cs2["pre"] = ["fuel"] + list(cs.get("pre", []))
+        text, ret = self.apply_spec(cs2, fn, e.args, e.keywords, env)
+        var = self.new_var("r")
+        self.hoist.append(dict(kind="res", text=text, var=var))
+        return var, ret
+
+    def hoisted(self, node, env, fn):
+        """translate one statement's expression with fn(); -> (result of fn, prefix text maker, suffix, env after)"""
+        saved, saved_e = self.hoist, getattr(self, "stmt_expr", None)
+        self.hoist, self.stmt_expr = [], node
+        try:
+            r = fn()
+            hs = self.hoist
+        finally:
+            self.hoist, self.stmt_expr = saved, saved_e
+        return r, hs
+
+    def hoist_prefix(self, hs, env, pad):
+        """-> (text before the statement, text after everything that follows it, env after the calls)"""
+        pre, post = "", ""
+        for h in hs:
+            if h["kind"] == "mut":
+                v = h["recv"]
+                pre += f"{pad}let '({cname(v)}, {h['var']}) := {h['text']} in\n" + self.write_back(env, v, pad)
+                env = self.kill(env, v)
+            else:
+                pre += f"{pad}res_bind {h['text']} (fun {h['var']} =>\n"
+                post += ")"
+        return pre, post, env
 
     def apply_fetch(self, cs, fn, e, env):
         """x.fetch(start, end, *, reverse=False) for a (coq, [OZ, OZ, B], ret) entry"""
@@ -710,14 +1000,57 @@ class Tr:
             return c.func.value.id, c, "append"
         return None
 
-    def assigned(self, stmts):
-        """env keys assigned anywhere in the statements, in order of first appearance"""
+    def self_is_record(self):
+        return self.spec["kind"] in ("method", "init") or bool(self.spec.get("method_of"))
+
+    def assigned(self, stmts, env=None):
+        """env keys assigned anywhere in the statements, in order of first appearance.  An update of a record
+        (a field store, a call of a method that updates its receiver) counts as an assignment of the
+        variable that holds it — and of every list it may be an alias into."""
         out = []
+        mod = ast.Module(body=list(stmts), type_ignores=[])
 
         def add(k):
             if k not in out:
                 out.append(k)
-        for sub in ast.walk(ast.Module(body=list(stmts), type_ignores=[])):
+        # x -> lists it may alias: `x = L[i]` here or before, `.. for x in L` in a comprehension
+        alias_of = {}
+        for a, (lst, _i, _n) in (env or {}).get("$alias", {}).items():
+            alias_of.setdefault(a, set()).add(lst)
+        comp_var = {}
+        for sub in ast.walk(mod):
+            if isinstance(sub, ast.Assign) and len(sub.targets) == 1 and isinstance(sub.targets[0], ast.Name) and \
+                    isinstance(sub.value, ast.Subscript) and isinstance(sub.value.value, ast.Name):
+                alias_of.setdefault(sub.targets[0].id, set()).add(sub.value.value.id)
+            if isinstance(sub, (ast.GeneratorExp, ast.ListComp)):
+                for g in sub.generators:
+                    if isinstance(g.target, ast.Name) and isinstance(g.iter, ast.Name):
+                        comp_var.setdefault(g.target.id, set()).add(g.iter.id)
+
+        def add_mut(v):
+            if v in comp_var:
+                for lst in sorted(comp_var[v]):
+                    add(lst)
+                return
+            add(v)
+            for lst in sorted(alias_of.get(v, ())):
+                add(lst)
+        for sub in ast.walk(mod):
+            if isinstance(sub, ast.Call) and isinstance(sub.func, ast.Attribute) and sub.func.attr in self.mut_names:
+                r = sub.func.value
+                if isinstance(r, ast.Name):
+                    add_mut(r.id)
+                elif isinstance(r, ast.Subscript) and isinstance(r.value, ast.Name):
+                    add(r.value.id)
+            if isinstance(sub, (ast.Assign, ast.AnnAssign, ast.AugAssign)):
+                tg = sub.targets if isinstance(sub, ast.Assign) else [sub.target]
+                rec = [t for t in tg if isinstance(t, ast.Attribute) and isinstance(t.value, ast.Name)
+                       and (t.value.id != "self" or self.self_is_record())]
+                if rec:
+                    for t in rec:
+                        add_mut(t.value.id)
+                    if len(rec) == len(tg):
+                        continue
             if isinstance(sub, ast.Assign):
                 if isinstance(sub.value, ast.Call) and ast.unparse(sub.value.func) in self.pops:
                     add("@" + self.pops[ast.unparse(sub.value.func)]["var"])
@@ -728,13 +1061,16 @@ class Tr:
                                 add(el.id)
                     else:
                         add(self.target_key(t))
+                am = self.any_mut_shape(sub.value)
+                if am is not None:
+                    add(am)
             elif isinstance(sub, (ast.AnnAssign, ast.AugAssign)):
                 add(self.target_key(sub.target))
             elif isinstance(sub, ast.Try) and self.next_form(sub) is not None:
                 add(self.next_form(sub)[1])
             elif isinstance(sub, ast.Expr) and isinstance(sub.value, ast.Call) and \
                     isinstance(sub.value.func, ast.Name) and sub.value.func.id in self.closures:
-                for k in self.assigned(self.closures[sub.value.func.id]):
+                for k in self.assigned(self.closures[sub.value.func.id], env):
                     add(k)
             elif isinstance(sub, ast.Expr):
                 ef = self.effect_of(sub)
@@ -747,7 +1083,8 @@ class Tr:
     def is_pure(self, s):
         """only assigns / updates state: no yield, continue, break, return, raise, loop, try"""
         if isinstance(s, (ast.Assign, ast.AnnAssign, ast.AugAssign, ast.Pass)):
-            return not any(isinstance(x, (ast.Yield, ast.YieldFrom)) for x in ast.walk(s))
+            return not any(isinstance(x, (ast.Yield, ast.YieldFrom)) for x in ast.walk(s)) and \
+                not self.has_res_call(s) and not self.names_needing_match(s)
         if isinstance(s, ast.Expr):
             if isinstance(s.value, ast.Call) and isinstance(s.value.func, ast.Name) and \
                     s.value.func.id in self.closures and not s.value.args and not s.value.keywords:
@@ -761,6 +1098,117 @@ class Tr:
         if isinstance(s, ast.Try) and self.next_form(s) is not None:
             return all(self.is_pure(x) for x in s.handlers[0].body)
         return False
+
+    def has_res_call(self, node):
+        for x in ast.walk(node):
+            if isinstance(x, ast.Call):
+                cs = self.calls.get(ast.unparse(x.func))
+                if isinstance(cs, dict) and cs.get("res"):
+                    return True
+        return False
+
+    def names_needing_match(self, node):
+        """sum-typed names are only known by their type here; which ones need a `match` is decided in block()"""
+        if not self.sums:
+            return False
+        return any(isinstance(x, ast.Name) and x.id in self.sum_names for x in ast.walk(node))
+
+    def any_mut_shape(self, value):
+        """any(<generator whose element calls a method that updates its receiver>) -> the list name, or None"""
+        if not (isinstance(value, ast.Call) and isinstance(value.func, ast.Name) and value.func.id == "any"
+                and len(value.args) == 1 and not value.keywords and isinstance(value.args[0], ast.GeneratorExp)
+                and self.mut_call_in(value.args[0].elt)):
+            return None
+        g = value.args[0]
+        c = g.elt
+        if len(g.generators) != 1 or g.generators[0].ifs or g.generators[0].is_async or \
+                not isinstance(g.generators[0].target, ast.Name) or \
+                not (isinstance(c, ast.Call) and isinstance(c.func, ast.Attribute) and not c.keywords):
+            raise Unsupported("shape of any(..) over calls that update their receiver")
+        gen, recv = g.generators[0], c.func.value
+        x = gen.target.id
+        if isinstance(recv, ast.Name) and recv.id == x and isinstance(gen.iter, ast.Name):
+            return gen.iter.id
+        if isinstance(recv, ast.Subscript) and isinstance(recv.value, ast.Name) and \
+                isinstance(recv.slice, ast.Name) and recv.slice.id == x:
+            return recv.value.id
+        raise Unsupported("shape of any(..) over calls that update their receiver")
+
+    def any_mut_assign(self, s, rest, env, fin, ind):
+        """x = any(v.m(args) for v in L)  /  x = any(L[i].m(args) for i in IDX), m updating its receiver"""
+        pad = "  " * ind
+        lst = self.any_mut_shape(s.value)
+        if "any" in env or len(s.targets) != 1 or not isinstance(s.targets[0], ast.Name):
+            raise Unsupported("shape of any(..) over calls that update their receiver")
+        g = s.value.args[0]
+        gen, c = g.generators[0], g.elt
+        x = gen.target.id
+        if lst not in env or not self.is_list(env[lst]) or self.item_of(env[lst]) not in self.records:
+            raise Unsupported(f"{lst} is not a local list of records")
+        self.check_mutable_here(lst)
+        rty = self.item_of(env[lst])
+        md = self.rec_methods.get((rty, c.func.attr))
+        if md is None or not md["mutates"] or md["ret"] != "B" or len(c.args) != len(md["args"]):
+            raise Unsupported(f"method {c.func.attr} of {rty}")
+        for a in c.args:
+            if any(isinstance(n, ast.Name) and n.id in (x, lst) for n in ast.walk(a)):
+                raise Unsupported("arguments that depend on the item or on the list")
+        ts = [self.expr(a, env, t)[0] for a, t in zip(c.args, md["args"])]
+        m = "(fun v_ => (" + " ".join([md["coq"], "v_"] + ts) + "))"
+        if isinstance(c.func.value, ast.Name):
+            text = f"(any_mut {m} {cname(lst)})"
+        else:
+            idxs, ity = self.expr0(gen.iter, env)
+            if not self.is_list(ity) or self.item_of(ity) != "Z":
+                raise Unsupported(f"indices of type {ity}")
+            text = f"(any_mut_at {self.defaults[rty]} {m} {cname(lst)} {idxs})"
+        env2 = self.bind(env, lst, env[lst])                 # (drops the aliases into the list)
+        env2 = self.bind(env2, s.targets[0].id, "B")
+        return f"{pad}let '({cname(lst)}, {cname(s.targets[0].id)}) := {text} in\n" + self.block(rest, env2, fin, ind)
+
+    def check_mutable_here(self, name):
+        """an update of a parameter would be invisible to the caller of the generated definition"""
+        if name in self.pyargs and not (name == "self" and self.self_is_record()):
+            raise Unsupported(f"update of the parameter {name}")
+
+    def kill_path(self, env, path):
+        keep = frozenset(f for f in env.get("$nn", frozenset())
+                         if f != path and not f.startswith(path + ".") and not f.startswith(path + "["))
+        env = dict(env)
+        env["$nn"] = keep
+        return env
+
+    def record_field(self, t, env):
+        """assignment target v.attr with v a local record -> (v, record description, (py, proj, type)) or None"""
+        if not (isinstance(t, ast.Attribute) and isinstance(t.value, ast.Name)):
+            return None
+        v = t.value.id
+        if v == "self" and not self.self_is_record():
+            return None
+        if v not in env or env[v] not in self.records:
+            return None
+        rd = self.records[env[v]]
+        for f in rd["fields"]:
+            if f[0] == t.attr:
+                return v, rd, f
+        raise Unsupported(f"{v}.{t.attr} is not a declared field of {env[v]}")
+
+    def set_field(self, v, rd, attr, val):
+        comps = [val if py == attr else f"({proj} {cname(v)})" for py, proj, _ in rd["fields"]]
+        return f"({rd['mk']} {' '.join(comps)})"
+
+    def field_store(self, s, rf, rest, env, fin, ind):
+        """v.attr = e  ->  let v := mk .. e .. in   (and the write-back into the list v is an alias into)"""
+        pad = "  " * ind
+        v, rd, (attr, _proj, fty) = rf
+        self.check_mutable_here(v)
+        if isinstance(s, ast.AnnAssign) and ann_type(s.annotation) != fty:
+            raise Unsupported(f"{v}.{attr} is annotated {ast.unparse(s.annotation)}, declared {fty}")
+        (val, _), hs = self.hoisted(s.value, env, lambda: self.expr(s.value, env, fty))
+        pre, post, env = self.hoist_prefix(hs, env, pad)
+        text = f"{pad}let {cname(v)} := {self.set_field(v, rd, attr, val)} in\n" + self.write_back(env, v, pad)
+        env2 = self.kill_path(env, f"{v}.{attr}")
+        return pre + text + self.block(rest, env2, fin, ind) + post
 
     def next_form(self, s):
         """try: x = next(it)  except StopIteration: H   ->  (x, it) or None"""
@@ -799,10 +1247,42 @@ class Tr:
             return self.block(rest, env, fin, ind)           # docstring
         if isinstance(s, ast.Pass):
             return self.block(rest, env, fin, ind)
+        if self.sums:
+            x = self.needs_match(s, env)
+            if x is not None:
+                return self.sum_match(x, stmts, env, fin, ind)
         if isinstance(s, ast.AugAssign):
             s = ast.Assign(targets=[s.target], value=ast.BinOp(left=self.as_load(s.target), op=s.op, right=s.value))
         if isinstance(s, ast.Assign) and isinstance(s.value, ast.Call) and ast.unparse(s.value.func) in self.pops:
             return self.pop_assign(s, rest, env, fin, ind)
+        if isinstance(s, ast.Assign) and self.any_mut_shape(s.value) is not None:
+            return self.any_mut_assign(s, rest, env, fin, ind)
+        if isinstance(s, (ast.Assign, ast.AnnAssign)) and s.value is not None:
+            tg = s.targets[0] if isinstance(s, ast.Assign) and len(s.targets) == 1 else getattr(s, "target", None)
+            rf = self.record_field(tg, env) if tg is not None else None
+            if rf is not None:
+                return self.field_store(s, rf, rest, env, fin, ind)
+        if isinstance(s, ast.Assign) and len(s.targets) == 1 and isinstance(s.targets[0], ast.Tuple) and \
+                isinstance(s.value, ast.Tuple):
+            # a, b = e1, e2: the right-hand sides are evaluated first
+            tg, vs = s.targets[0].elts, s.value.elts
+            if len(tg) != len(vs) or not all(isinstance(t, ast.Name) for t in tg) or \
+                    len({t.id for t in tg}) != len(tg):
+                raise Unsupported("tuple assignment")
+            vals = [self.expr(v, env, self.declared.get(t.id, env.get(t.id))) for t, v in zip(tg, vs)]
+            if any(ty == "NONE" for _, ty in vals):
+                raise Unsupported("tuple assignment of an untyped None")
+            env2 = env
+            for t, (_, ty) in zip(tg, vals):
+                env2 = self.bind(env2, t.id, ty)
+            return (f"{pad}let '({', '.join(cname(t.id) for t in tg)}) := ({', '.join(v for v, _ in vals)}) in\n"
+                    + self.block(rest, env2, fin, ind))
+        if isinstance(s, ast.Expr) and isinstance(s.value, ast.Call) and isinstance(s.value.func, ast.Attribute) \
+                and s.value.func.attr in self.mut_names and ast.unparse(s.value.func) not in self.effects:
+            # v.m(args) as a statement, m updating v
+            _, hs = self.hoisted(s.value, env, lambda: self.call(s.value, env))
+            pre, post, env2 = self.hoist_prefix(hs, env, pad)
+            return pre + self.block(rest, env2, fin, ind) + post
         if isinstance(s, (ast.Assign, ast.AnnAssign)):
             if isinstance(s, ast.Assign):
                 if len(s.targets) != 1:
@@ -819,12 +1299,15 @@ class Tr:
                 if want is None and isinstance(value, ast.Constant) and value.value is None and key in env:
                     # `x = None` for a variable that already has a type: the option form of that type
                     want = SOME.get(env[key], env[key])
-            t, ty = self.expr(value, env, want)
+            (t, ty), hs = self.hoisted(value, env, lambda: self.expr(value, env, want))
+            pre, post, env = self.hoist_prefix(hs, env, pad)
             if ty == "NONE":
                 raise Unsupported(f"type of {key} = None unknown (annotate it)")
             if decl:
                 self.declared[key] = decl
-            return self.assign(key, t, ty, env, pad, rest, fin, ind)
+            if ty in self.records and not key.startswith("@"):
+                return pre + self.record_assign(key, value, t, ty, env, pad, rest, fin, ind) + post
+            return pre + self.assign(key, t, ty, env, pad, rest, fin, ind) + post
         if isinstance(s, ast.FunctionDef):
             # a local closure without parameters whose assigned names are all nonlocal: inlined at its calls
             a = s.args
@@ -901,8 +1384,9 @@ class Tr:
             if s.value is not None:
                 if self.kind != "expr":
                     raise Unsupported("return with a value outside a value-returning function")
-                t, _ = self.expr(s.value, env, self.ret_type)
-                return pad + fin(env, "return", t)
+                (t, _), hs = self.hoisted(s.value, env, lambda: self.expr(s.value, env, self.ret_type))
+                pre, post, env = self.hoist_prefix(hs, env, pad)
+                return pre + pad + fin(env, "return", t) + post
             if self.kind == "expr":
                 raise Unsupported("bare return in a value-returning function")
             return pad + fin(env, "return")
@@ -923,6 +1407,65 @@ class Tr:
                 return self.join_if(s, rest, env, fin, ind)
             return self.try_stmt(s, rest, env, fin, ind)
         raise Unsupported(f"statement {type(s).__name__}: {ast.unparse(s)[:80]}")
+
+    def record_assign(self, key, value, t, ty, env, pad, rest, fin, ind):
+        """x = <a record>: a record object is mutable, so the only accepted sources are a fresh object (a
+        constructor call) and an item of a local list — then x is an ALIAS into that list"""
+        if isinstance(value, ast.Call) and isinstance(value.func, ast.Name) and value.func.id in self.known \
+                and value.func.id not in env:
+            return self.assign(key, t, ty, env, pad, rest, fin, ind)
+        if isinstance(value, ast.Subscript) and isinstance(value.value, ast.Name) and value.value.id in env and \
+                (isinstance(value.slice, ast.Name) or
+                 (isinstance(value.slice, ast.Constant) and isinstance(value.slice.value, int))):
+            lst = value.value.id
+            idx, _ = self.expr(value.slice, env, "Z")
+            names = {value.slice.id} if isinstance(value.slice, ast.Name) else set()
+            if key == lst or key in names:
+                raise Unsupported("alias of itself")
+            env2 = dict(self.bind(env, key, ty))
+            al = dict(env2.get("$alias", {}))
+            al[key] = (lst, idx, names)
+            env2["$alias"] = al
+            return f"{pad}let {cname(key)} := {t} in\n" + self.block(rest, env2, fin, ind)
+        raise Unsupported(f"{key} = {ast.unparse(value)[:40]}: a second name for a mutable record")
+
+    def needs_match(self, s, env):
+        """a name of a sum type, used by this statement's own expression while its constructor is unknown"""
+        if isinstance(s, (ast.If, ast.While)):
+            node = s.test
+        elif isinstance(s, (ast.Assign, ast.AnnAssign, ast.AugAssign, ast.Return, ast.Expr)):
+            node = s.value
+        else:
+            node = None
+        if node is None:
+            return None
+        known = env.get("$ctor", {})
+        for x in ast.walk(node):
+            if isinstance(x, ast.Name) and x.id in env and env[x.id] in self.sums and x.id not in known:
+                return x.id
+        return None
+
+    def sum_match(self, x, stmts, env, fin, ind):
+        """match x with | C fields => <the statements, knowing x is a C> | ... end"""
+        pad = "  " * ind
+        if self.loop_depth:
+            raise Unsupported("a test on a sum-typed value inside a loop")
+        sd = self.sums[env[x]]
+        arms = []
+        for ctor, fields in sd["ctors"]:
+            env2 = dict(env)
+            for f, fty in fields:
+                fname = f"{x}_{f}"
+                if fname in self.all_names:
+                    raise Unsupported(f"the name {fname} is used by the function")
+                env2 = self.bind(env2, fname, fty)
+            env2 = dict(env2)
+            ct = dict(env2.get("$ctor", {}))
+            ct[x] = ctor
+            env2["$ctor"] = ct
+            pat = " ".join([ctor] + [f"{cname(x)}_{f}" for f, _ in fields])
+            arms.append(f"{pad}| {pat} =>\n" + self.block(stmts, env2, fin, ind + 1))
+        return f"{pad}match {cname(x)} with\n" + "\n".join(arms) + f"\n{pad}end"
 
     def pop_assign(self, s, rest, env, fin, ind):
         """x = pop(container) / a, b, c = pop(container): the value the spec gives, then the update of the
@@ -990,6 +1533,10 @@ class Tr:
             # inside the None branch the name still has its option type and equals None
             return f"{pad}match {x} with\n{pad}| Some {x} =>\n{a}\n{pad}| None =>\n{b}\n{pad}end"
         c, _ = self.expr(s.test, env, "B")
+        if c in ("true", "false") and env.get("$ctor"):
+            # a test decided by a known constructor: only the branch that runs is translated
+            live = s.body if c == "true" else s.orelse
+            return self.block(list(live) + rest, self.refine(s.test, env, c == "true"), fin, ind)
         a = self.block(list(s.body) + rest, self.refine(s.test, env, True), fin, ind + 1)
         b = self.block(list(s.orelse) + rest, self.refine(s.test, env, False), fin, ind + 1)
         return f"{pad}if {c} then\n{a}\n{pad}else\n{b}"
@@ -1005,7 +1552,7 @@ class Tr:
             leaves.append(e2)
             return "?"
         self.block([s], env, probe, 0)
-        keys = [k for k in self.assigned([s]) if all(k in e2 for e2 in leaves)]
+        keys = [k for k in self.assigned([s], env) if all(k in e2 for e2 in leaves)]
         tys = {}
         for k in keys:
             if k.startswith("@"):
@@ -1024,7 +1571,7 @@ class Tr:
             items = [self.coerce(cname(x), e2[x], tys[x], f"(joined variable {x})") for x in keys]
             return items[0] if len(items) == 1 else "(" + ", ".join(items) + ")"
         env2 = dict(env)
-        for k in self.assigned([s]):
+        for k in self.assigned([s], env):
             if not k.startswith("@"):
                 env2 = self.kill(env2, k)
                 if k not in keys:
@@ -1056,6 +1603,9 @@ class Tr:
             hb = self.block(list(s.handlers[0].body) + rest, env, fin, ind + 1)
             return (f"{pad}match {cname(it)} with\n{pad}| v_ :: it_ =>\n{pad}  let {cname(x)} := {val} in\n"
                     f"{pad}  let {cname(it)} := it_ in\n{ok}\n{pad}| [] =>\n{hb}\n{pad}end")
+        nx = self.next_form_ext(s, env)
+        if nx is not None:
+            return self.try_next_ext(s, nx, rest, env, fin, ind)
         if s.orelse or s.finalbody or len(s.handlers) != 1 or len(s.body) != 1:
             raise Unsupported("try shape")
         h = s.handlers[0]
@@ -1097,14 +1647,125 @@ class Tr:
         hb = self.block(list(h.body) + rest, env, fin_h, ind + 1)
         return f"{pad}match {t} with\n{pad}| Some v_ =>\n{pad}  {ok}\n{pad}| None =>\n{hb}\n{pad}end"
 
+    def next_form_ext(self, s, env):
+        """try: T = next(IT); <statements without any call or raise>  except StopIteration: H
+        with T / IT a local name or a field of a local record -> (target node, iterator node)"""
+        if s.orelse or s.finalbody or len(s.handlers) != 1 or not s.body:
+            return None
+        h, b = s.handlers[0], s.body[0]
+        if h.name is not None or not isinstance(h.type, ast.Name) or h.type.id != "StopIteration":
+            return None
+        if not (isinstance(b, ast.Assign) and len(b.targets) == 1 and isinstance(b.value, ast.Call)
+                and isinstance(b.value.func, ast.Name) and b.value.func.id == "next" and "next" not in env
+                and len(b.value.args) == 1 and not b.value.keywords):
+            return None
+        for x in s.body[1:]:
+            for sub in ast.walk(x):
+                if isinstance(sub, (ast.Call, ast.Raise, ast.Try, ast.For, ast.While, ast.Yield, ast.YieldFrom,
+                                    ast.Subscript, ast.BinOp, ast.Await)):
+                    # only next() may raise StopIteration inside this try
+                    raise Unsupported("try: x = next(..) followed by a statement that could raise")
+        return b.targets[0], b.value.args[0]
+
+    def try_next_ext(self, s, nx, rest, env, fin, ind):
+        pad = "  " * ind
+        tg, it = nx
+        # the iterator: its remaining items
+        if isinstance(it, ast.Name):
+            if it.id not in env or not self.is_list(env[it.id]):
+                raise Unsupported(f"next of {ast.unparse(it)}")
+            self.check_mutable_here(it.id)
+            ity = self.item_of(env[it.id])
+            it_text = cname(it.id)
+            adv = f"{pad}  let {cname(it.id)} := it_ in\n"
+            env_ok = self.bind(env, it.id, env[it.id])
+        else:
+            rf = self.record_field(it, env)
+            if rf is None or not self.is_list(rf[2][2]):
+                raise Unsupported(f"next of {ast.unparse(it)}")
+            v, rd, (attr, proj, fty) = rf
+            self.check_mutable_here(v)
+            ity = self.item_of(fty)
+            it_text = f"({proj} {cname(v)})"
+            adv = f"{pad}  let {cname(v)} := {self.set_field(v, rd, attr, 'it_')} in\n" + self.write_back(env, v, pad + "  ")
+            env_ok = env
+        # the target
+        if isinstance(tg, ast.Name):
+            want = self.declared.get(tg.id)
+            val = self.coerce("v_", ity, want, "(next(..))")
+            env_ok = self.bind(env_ok, tg.id, want or ity)
+            store = f"{pad}  let {cname(tg.id)} := {val} in\n"
+        else:
+            rf = self.record_field(tg, env_ok)
+            if rf is None:
+                raise Unsupported(f"assignment target {ast.unparse(tg)}")
+            v, rd, (attr, proj, fty) = rf
+            self.check_mutable_here(v)
+            val = self.coerce("v_", ity, fty, "(next(..))")
+            store = f"{pad}  let {cname(v)} := {self.set_field(v, rd, attr, val)} in\n" + \
+                self.write_back(env_ok, v, pad + "  ")
+            env_ok = self.kill_path(env_ok, f"{v}.{attr}")
+            if fty in OPT and ity == OPT[fty]:
+                env_ok = self.with_nn(env_ok, {f"{v}.{attr}"})
+        ok = self.block(list(s.body[1:]) + rest, env_ok, fin, ind + 1)
+        hb = self.block(list(s.handlers[0].body) + rest, env, fin, ind + 1)
+        # (next() consumes the item first, then the target is stored)
+        return (f"{pad}match {it_text} with\n{pad}| v_ :: it_ =>\n{adv}{store}{ok}\n{pad}| [] =>\n{hb}\n{pad}end")
+
     # ---------------------------------------------------------------- loops
+    def inner_for(self, s, rest, env, fin, ind):
+        """a `for` directly in the body of a generator's loop: sub_for"""
+        if s.orelse or not isinstance(s.target, ast.Name):
+            raise Unsupported("nested loop shape")
+        pad, p1, p2 = "  " * ind, "  " * (ind + 1), "  " * (ind + 2)
+        nil = f"@nil {self.out_type}"
+        state = [k for k in self.assigned(s.body, env) if k in env]
+        if s.target.id in state:
+            raise Unsupported("loop target is a variable that exists before the loop")
+        state_ty = {k: (self.genparams[k[1:]] if k.startswith("@") else self.declared.get(k, env[k])) for k in state}
+
+        def pack(e2):
+            items = [self.coerce(cname(v), e2[v], state_ty[v], f"(state variable {v})") for v in state]
+            return "tt" if not items else (items[0] if len(items) == 1 else "(" + ", ".join(items) + ")")
+        names = [cname(v) for v in state]
+        unpack = "_" if not names else (names[0] if len(names) == 1 else "'(" + ", ".join(names) + ")")
+        stream, sty = self.expr0(s.iter, env)
+        if not self.is_list(sty):
+            raise Unsupported(f"loop over {sty}")
+        env_loop = dict(env)
+        for v in state:
+            env_loop = self.bind(env_loop, v, state_ty[v]) if not v.startswith("@") else env_loop
+            env_loop[v] = state_ty[v]
+        env_body = self.bind(env_loop, s.target.id, self.item_of(sty))
+        env_body["$y"] = False
+
+        def fin_in(e2, k, v=None):
+            if k in ("end", "continue"):
+                return f"(out, {pack(e2)}, true)"
+            if k == "break":
+                return f"(out, {pack(e2)}, false)"
+            raise Unsupported(f"{k} inside a nested loop")
+        self.loop_depth += 1
+        saved_opt, self.opt_body = self.opt_body, False
+        try:
+            body_t = self.block(s.body, env_body, fin_in, ind + 3)
+        finally:
+            self.loop_depth -= 1
+            self.opt_body = saved_opt
+        env_after = dict(env_loop)
+        env_after["$y"] = True
+        rest_t = self.block(rest, env_after, fin, ind)
+        return (f"{pad}let '(out1_, {unpack.lstrip(chr(39))}) :=\n{p1}sub_for\n{p2}(fun {unpack} {cname(s.target.id)} =>\n"
+                f"{p2}  let out := {nil} in\n{body_t})\n{p2}{pack(env)} {stream} in\n"
+                f"{pad}let out := out ++ out1_ in\n{rest_t}")
+
     def inner_while(self, s, rest, env, fin, ind):
         """a `while` directly in the body of a generator's `for` (run_for_o): sub_while"""
         if s.orelse:
             raise Unsupported("loop with else")
         pad, p1, p2 = "  " * ind, "  " * (ind + 1), "  " * (ind + 2)
         nil = f"@nil {self.out_type}"
-        state = [k for k in self.assigned(s.body) if k in env]
+        state = [k for k in self.assigned(s.body, env) if k in env]
         state_ty = {k: (self.genparams[k[1:]] if k.startswith("@") else self.declared.get(k, env[k])) for k in state}
 
         def pack(e2):
@@ -1141,6 +1802,8 @@ class Tr:
     def loop(self, s, rest, env, fin, ind):
         if self.loop_depth == 1 and self.opt_body and isinstance(s, ast.While) and self.kind == "gen":
             return self.inner_while(s, rest, env, fin, ind)
+        if self.loop_depth == 1 and isinstance(s, ast.For) and self.kind == "gen":
+            return self.inner_for(s, rest, env, fin, ind)
         if self.loop_depth > 0:
             raise Unsupported("nested loop")
         if s.orelse:
@@ -1153,7 +1816,7 @@ class Tr:
         pad = "  " * ind
         nil = f"@nil {self.out_type}"
         gen = self.kind == "gen"
-        assigned = self.assigned(s.body)
+        assigned = self.assigned(s.body, env)
         state = [k for k in assigned if k in env]
         if is_for and s.target.id in state:
             raise Unsupported("loop target is a variable that exists before the loop")
@@ -1257,6 +1920,9 @@ class Tr:
         if a.vararg or a.kwarg:
             raise Unsupported("*args / **kwargs parameters")
         pyargs = [x.arg for x in a.posonlyargs + a.args + a.kwonlyargs]
+        self.pyargs = set(pyargs)
+        self.sum_names = set()
+        self.all_names = {x.id for x in ast.walk(fdef) if isinstance(x, ast.Name)} | set(pyargs)
         env = {"$nn": frozenset(), "$y": False}
         params = [f"{{{v} : Type}}" for v in spec.get("tyvars", [])]
         body = list(fdef.body)
@@ -1277,6 +1943,8 @@ class Tr:
                 params.append(f"({cname(pname)} : {self.coq_type(pty)})")
                 if pname in pyargs:
                     env[pname] = pty
+                    if pty in self.sums:
+                        self.sum_names.add(pname)
                 else:
                     self.genparams[pname] = pty      # never visible as a Python name
             else:                                    # a function-typed parameter given as Coq text
@@ -1303,6 +1971,9 @@ class Tr:
                 if isinstance(sub, (ast.With, ast.AsyncFunctionDef, ast.ClassDef, ast.Global,
                                     ast.Delete, ast.Await, ast.NamedExpr)):
                     raise Unsupported(f"construct {type(sub).__name__}")
+                if isinstance(sub, ast.Try) and len(sub.handlers) == 1 and \
+                        isinstance(sub.handlers[0].type, ast.Name) and sub.handlers[0].type.id == "StopIteration":
+                    continue        # try: x = next(it) except StopIteration: .. needs no res
                 if isinstance(sub, (ast.Raise, ast.Try)) and not self.res:
                     raise Unsupported(f"{type(sub).__name__} in a function without a res result")
         wrap = (lambda t: f"(RDone {t})") if self.res else (lambda t: t)
@@ -1316,6 +1987,65 @@ class Tr:
                 raise Unsupported("raise after a yield")
             return f"(RRaise {v})"
 
+        def add_fuel():
+            if self.uses_fuel and not has_while:
+                params.insert(len(spec.get("tyvars", [])), "(fuel : nat)")
+
+        if kind == "method":
+            # a method of a record class that updates self: the result is (self afterwards, returned value)
+            if self.res or "self" not in env or env["self"] not in self.records:
+                raise Unsupported("a method needs a record-typed self and a plain result")
+            self.ret_type = spec["ret"]
+            rty = self.coq_type(self.ret_type)
+
+            def fin(e2, k, v=None):
+                if k == "return" and v is not None:
+                    return f"(self, {v})"
+                if k in ("end", "return") and self.ret_type == "U":
+                    return "(self, tt)"
+                raise Unsupported("method falls off its end without returning a value" if k == "end"
+                                  else f"{k} outside a loop")
+            self.kind = "expr"          # (statements are those of a value-returning function)
+            try:
+                text = self.block(body, env, fin, 1)
+            finally:
+                self.kind = "method"
+            return f"Definition {name} {' '.join(params)} : {self.coq_type(env['self'])} * {rty} :=\n{text}.\n"
+        if kind == "init":
+            # __init__: first every field is stored, once, from expressions that do not mention self; then
+            # the object exists and the remaining statements run on it
+            rt = spec["record"]
+            rd = self.records[rt]
+            self.check_class_fields(rd)
+            vals, i = {}, 0
+            stmts = [x for x in body if not (isinstance(x, ast.Expr) and isinstance(x.value, ast.Constant))]
+            while i < len(stmts) and len(vals) < len(rd["fields"]):
+                x = stmts[i]
+                tg = x.targets[0] if isinstance(x, ast.Assign) and len(x.targets) == 1 else getattr(x, "target", None)
+                if not (isinstance(x, (ast.Assign, ast.AnnAssign)) and x.value is not None and
+                        isinstance(tg, ast.Attribute) and isinstance(tg.value, ast.Name) and tg.value.id == "self"):
+                    break
+                f = [fd for fd in rd["fields"] if fd[0] == tg.attr]
+                if not f or tg.attr in vals:
+                    raise Unsupported(f"self.{tg.attr} in __init__")
+                if isinstance(x, ast.AnnAssign) and ann_type(x.annotation) != f[0][2]:
+                    raise Unsupported(f"self.{tg.attr} is annotated {ast.unparse(x.annotation)}, declared {f[0][2]}")
+                if any(isinstance(n, ast.Name) and n.id == "self" for n in ast.walk(x.value)):
+                    raise Unsupported("a field initialised from self")
+                vals[tg.attr] = self.expr(x.value, env, f[0][2])[0]
+                i += 1
+            if len(vals) != len(rd["fields"]):
+                raise Unsupported("__init__ does not start by storing every declared field")
+            env = self.bind(env, "self", rt)
+
+            def fin(e2, k, v=None):
+                if k == "end" or (k == "return" and v is None):
+                    return "self"
+                raise Unsupported(f"{k} in __init__")
+            self.ret_type = None
+            text = self.block(stmts[i:], env, fin, 1)
+            mk = f"({rd['mk']} {' '.join(vals[fd[0]] for fd in rd['fields'])})"
+            return f"Definition {name} {' '.join(params)} : {rd['coq']} :=\n  let self := {mk} in\n{text}.\n"
         if kind == "expr":
             self.ret_type = spec["ret"]
             rty = self.coq_type(self.ret_type)
@@ -1328,6 +2058,7 @@ class Tr:
                 raise Unsupported("function falls off its end without returning a value" if k == "end"
                                   else f"{k} outside a loop")
             text = self.block(body, env, fin, 1)
+            add_fuel()
             full = f"res {rty if ' ' not in rty else '(' + rty + ')'}" if self.res else rty
             return f"Definition {name} {' '.join(params)} : {full} :=\n{text}.\n"
         self.ret_type = None
@@ -1345,6 +2076,7 @@ class Tr:
                     return raise_text(e2, v)
                 raise Unsupported(f"{k} outside a loop")
             text = self.block(body, env, fin, 1)
+            add_fuel()
             full = f"res {tup}" if self.res else tup
             return f"Definition {name} {' '.join(params)} : {full} :=\n{text}.\n"
         # generator
@@ -1357,10 +2089,29 @@ class Tr:
                 return raise_text(e2, v)
             raise Unsupported(f"{k} outside a loop")
         text = self.block(body, env, fin, 1)
+        add_fuel()
         full = f"res ({out_list})" if self.res else out_list
         has_loop = any(isinstance(s, (ast.For, ast.While)) for s in body)
         head = "" if (has_loop and not self.uses_out_before_loop(body)) else f"  let out := @nil {self.out_type} in\n"
         return f"Definition {name} {' '.join(params)} : {full} :=\n{head}{text}.\n"
+
+    def check_class_fields(self, rd):
+        """every attribute any method of the class stores on self is a declared field of the record"""
+        cd = self.classdef
+        if cd is None or cd.name != rd["cls"]:
+            raise Unsupported("record class not found")
+        declared = {f[0] for f in rd["fields"]}
+        for sub in ast.walk(cd):
+            if isinstance(sub, ast.Attribute) and isinstance(sub.ctx, (ast.Store, ast.Del)) and \
+                    isinstance(sub.value, ast.Name) and sub.value.id == "self" and sub.attr not in declared:
+                raise Unsupported(f"class {cd.name} stores self.{sub.attr}, which is not a declared field")
+        if any(isinstance(b, ast.Name) and b.id != "object" or not isinstance(b, ast.Name) for b in cd.bases) or \
+                cd.keywords or cd.decorator_list:
+            raise Unsupported(f"class {cd.name} has base classes or decorators")
+        for n in cd.body:
+            if isinstance(n, ast.FunctionDef) and n.name in ("__setattr__", "__getattr__", "__getattribute__",
+                                                             "__slots__", "__del__"):
+                raise Unsupported(f"class {cd.name} defines {n.name}")
 
     def has_while(self, stmts):
         """is there a `while` outside the branches the spec declares untranslated?"""
@@ -1389,15 +2140,18 @@ class Tr:
         return False
 
 
+def find_class(tree, cls):
+    found = [n for n in tree.body if isinstance(n, ast.ClassDef) and n.name == cls]
+    return found[0] if len(found) == 1 else None
+
+
 def find_function(tree, cls, func):
     scope = tree.body
     if cls:
-        for n in tree.body:
-            if isinstance(n, ast.ClassDef) and n.name == cls:
-                scope = n.body
-                break
-        else:
-            raise Unsupported(f"class {cls} not found")
+        cd = find_class(tree, cls)
+        if cd is None:
+            raise Unsupported(f"class {cls} not found (or defined twice)")
+        scope = cd.body
     found = [n for n in scope if isinstance(n, ast.FunctionDef) and n.name == func]
     if len(found) == 1:
         return found[0]
@@ -1426,6 +2180,10 @@ def translate_all(repo: Path, specs, header=HEADER):
                 trees[path] = ast.parse(path.read_text())
             fdef = find_function(trees[path], spec.get("cls"), spec["func"])
             tr = Tr(spec, known)
+            tr.classdef = find_class(trees[path], spec["cls"]) if spec.get("cls") else None
+            for d in fdef.decorator_list:
+                if ast.unparse(d) not in ("override", "property"):
+                    raise Unsupported(f"decorator {ast.unparse(d)[:40]}")
             text = tr.function(fdef)
             # a definition that mentions a generated definition which could not be translated is not
             # emitted either (Gen/Source.v must always compile: only the proofs about what is missing break)
@@ -1435,8 +2193,18 @@ def translate_all(repo: Path, specs, header=HEADER):
             out.append(f"(* {spec['file']}: {(spec.get('cls') + '.') if spec.get('cls') else ''}{spec['func']} *)\n" + text)
             if spec["kind"] == "expr" and not spec.get("res"):
                 argtys = [t for _, t in spec["params"]]
-                if all(isinstance(t, str) and t in COQ_TYPE for t in argtys):
+                if spec.get("method_of"):
+                    # a method that does not update self (any store / updating call on self is Unsupported
+                    # in a value-returning function)
+                    known[(spec["method_of"], spec["func"])] = dict(coq=name, args=argtys[1:], ret=spec["ret"],
+                                                                    mutates=False)
+                elif all(isinstance(t, str) and t in COQ_TYPE for t in argtys):
                     known[spec.get("pyname", spec["func"])] = (name, argtys, spec["ret"])
+            if spec["kind"] == "method":
+                known[(spec["params"][0][1], spec["func"])] = dict(coq=name, args=[t for _, t in spec["params"][1:]],
+                                                                  ret=spec["ret"], mutates=True)
+            if spec["kind"] == "init":
+                known[spec["cls"]] = (name, [t for _, t in spec["params"]], spec["record"])
         except (Unsupported, SyntaxError, OSError, KeyError) as ex:
             errors[name] = f"{type(ex).__name__}: {ex}"
             out.append(f"(* {name}: NOT TRANSLATED — {str(ex).replace('*)', '* )')} *)\n")
